@@ -892,3 +892,27 @@ func Select(cases []reflect.SelectCase) (int, reflect.Value, bool) {
 	}
 	return reflect.Select(cases)
 }
+
+// Helpers for rewritten native select statements (verifgen R6).
+
+func Cases(cs ...reflect.SelectCase) []reflect.SelectCase { return cs }
+
+func DefaultCase() reflect.SelectCase { return reflect.SelectCase{Dir: reflect.SelectDefault} }
+
+func RecvCase[T any](ch <-chan T) reflect.SelectCase {
+	return reflect.SelectCase{Dir: reflect.SelectRecv, Chan: reflect.ValueOf(ch)}
+}
+
+func SendCase[T any](ch chan<- T, v T) reflect.SelectCase {
+	return reflect.SelectCase{Dir: reflect.SelectSend, Chan: reflect.ValueOf(ch), Send: reflect.ValueOf(&v).Elem()}
+}
+
+// RecvVal gives the received value the static type the clause's channel has.
+func RecvVal[T any](ch <-chan T, rv reflect.Value) T {
+	var zero T
+	if !rv.IsValid() || !rv.CanInterface() {
+		return zero
+	}
+	x, _ := rv.Interface().(T)
+	return x
+}
